@@ -220,10 +220,31 @@ pub fn run_grevm(
         let mut stable = 0u32;
         let mut cancelled = false;
         let mut release_attempts = 0u32;
+        let mut marks_seen = 0u64;
+        let mut begins_at_mark = 0u64;
         while !done.load(Ordering::SeqCst) {
             if start.elapsed() < soft {
                 std::thread::sleep(Duration::from_micros(200));
                 continue;
+            }
+            // ---- livelock cut-off (logical): thousands of execution attempts per transaction
+            // without a single finality or commit step. Not a verdict by itself - the run is only
+            // wound down so that the trace monitors (HEAD, VER, TS) can judge what happened; if
+            // they find nothing the run is reported INCONCLUSIVE.
+            if !cancelled {
+                let marks = o.progress_marks.load(Ordering::Relaxed);
+                let begins = o.exec_begins.load(Ordering::Relaxed);
+                if marks != marks_seen {
+                    marks_seen = marks;
+                    begins_at_mark = begins;
+                } else if begins.saturating_sub(begins_at_mark) > 400 * (n as u64 + 4) {
+                    inconclusive = Some(format!(
+                        "livelock suspected: {} execution attempts since the last finality/commit step of a {n}-transaction block; run cancelled",
+                        begins - begins_at_mark
+                    ));
+                    scheduler.verif_cancel();
+                    cancelled = true;
+                }
             }
             std::thread::sleep(Duration::from_millis(300));
             if done.load(Ordering::SeqCst) {
